@@ -22,21 +22,23 @@ EXTENDS Integers, Sequences, FiniteSets, TLC, Json, SequencesExt
 
 CONSTANTS MaxReq     \* total number of require statements
 
-Files == {"main", "a", "b", "c"}
+Files == {"main", "a", "b", "c", "t"}
+\* t is a scattered file: nobody requires it, so it never belongs to the project; it may require project files
+Proj == Files \ {"t"}
 
 VARIABLES req     \* [Files -> Seq(Files)] : the modules each file requires, in order
 
 vars == <<req>>
 
-Total == Len(req["main"]) + Len(req["a"]) + Len(req["b"]) + Len(req["c"])
+Total == Len(req["main"]) + Len(req["a"]) + Len(req["b"]) + Len(req["c"]) + Len(req["t"])
 
 Init == req = [f \in Files |-> <<>>]
 
 \* file f requires g (not itself; main is required by nobody: it is the entry)
 AddReq(f, g) ==
     /\ Total < MaxReq
-    /\ g # f /\ g # "main"
-    /\ Len(req[f]) < 3
+    /\ g # f /\ g \notin {"main", "t"}
+    /\ Len(req[f]) < (IF f = "t" THEN 2 ELSE 3)
     /\ req' = [req EXCEPT ![f] = Append(@, g)]
 
 Next == \E f \in Files, g \in Files : AddReq(f, g)
@@ -48,8 +50,10 @@ RECURSIVE Reach(_)
 Reach(S) == LET N == S \cup UNION {{req[f][i] : i \in 1..Len(req[f])} : f \in S}
             IN IF N = S THEN S ELSE Reach(N)
 Members == Reach({"main"})
+\* what the scattered file pulls in: itself and everything it requires, transitively
+Incl == Reach({"t"})
 
-Covered == Members = Files
+Covered == Members = Proj
 
 (***************************************************************************)
 (* Load order.  As built, the project pass is not a workspace-wide lookup   *)
@@ -79,7 +83,7 @@ Walk(f, st) ==
     IN [s2 EXCEPT !.done = Append(@, f),
                   !.saw = [@ EXCEPT ![f] = {s2.done[k] : k \in 1..Len(s2.done)} \cup {f}],
                   !.sawp = [@ EXCEPT ![f] = s2.ret \cup {f}]]
-Final == Walk("main", [entered |-> {}, done |-> <<>>, ret |-> {}, saw |-> [f \in Files |-> {}], sawp |-> [f \in Files |-> {}]])
+Final == Walk("main", [entered |-> {}, done |-> <<>>, ret |-> {}, saw |-> [f \in Files |-> {f}], sawp |-> [f \in Files |-> {f}]])
 LoadOrder == Final.done          \* files in the order their definitions are passed
 Saw == Final.saw                 \* Saw[f]: files whose _G globals f's top-level reads see in project mode
 SawPlain == Final.sawp           \* SawPlain[f]: files whose plain globals they see
@@ -110,12 +114,14 @@ Kinds == {"g", "h", "fn"}       \* g_x = 1 ; _G.h_x = 2 ; function fn_x() end
 Ideal(f, d, k) == "ok"
 AsBuilt(f, d, k) ==
     IF f = d THEN "ok"
+    ELSE IF f = "t" THEN (IF d \in Incl THEN "ok" ELSE "unknown")
+    ELSE IF d = "t" THEN "unknown"
     ELSE IF k # "h" /\ d = "main" THEN "unknown"
     ELSE IF k = "h" THEN (IF d \in Saw[f] THEN "ok" ELSE "cycle")
     ELSE IF d \in SawPlain[f] THEN "ok" ELSE "cycle"
 \* model facts: the entry file resolves everything; a file's own globals always resolve; _G globals never get lost
-EntryResolvesAll == Covered => \A d \in Files, k \in Kinds : AsBuilt("main", d, k) = "ok"
-GNeverUnknown == \A f, d \in Files : AsBuilt(f, d, "h") # "unknown"
+EntryResolvesAll == Covered => \A d \in Proj, k \in Kinds : AsBuilt("main", d, k) = "ok"
+GNeverUnknown == \A f, d \in Proj : AsBuilt(f, d, "h") # "unknown"
 Deviates == \E f, d \in Files, k \in Kinds : AsBuilt(f, d, k) # Ideal(f, d, k)
 
 \* model facts: the entry is always a member; membership only grows with more requires
@@ -128,7 +134,7 @@ Repeated == \E f \in Files : \E i, j \in 1..Len(req[f]) : i # j /\ req[f][i] = r
 
 Emit == IF Covered
         THEN PrintT("@@J " \o ToJson([fam |-> "project", req |-> req, shared |-> Shared, repeated |-> Repeated,
-                                       order |-> LoadOrder, saw |-> [f \in Files |-> SetToSeq(Saw[f])],
+                                       incl |-> SetToSeq(Incl), order |-> LoadOrder, saw |-> [f \in Files |-> SetToSeq(Saw[f])],
                                        asbuilt |-> [f \in Files |-> [d \in Files |-> [k \in Kinds |-> AsBuilt(f, d, k)]]]]))
         ELSE TRUE
 =============================================================================
